@@ -276,7 +276,7 @@ Proof. vm_compute. reflexivity. Qed.
 (* (model/RandLink.v, proofs/RandProofs2.v).                                *)
 (* ======================================================================== *)
 
-(* 8. NONCES NEVER REPEAT UNLESS THE TAPE DOES.
+(* 8. THE DRAWN WINDOW IS THE NONCE OF THE CIPHERTEXT; NONCES REPEAT IFF THE TAPE DOES.
    (a) For every AEAD key type the ciphertext that the C01 model
    (AeadFrame.v / GcmSiv.v / EtM.v / Xaes.v) produces with IV := the window
    that CEncrypt draws is  prefix ‖ window ‖ body: the window sits, byte for
@@ -338,11 +338,13 @@ Proof.
 Qed.
 Print Assumptions C20_encrypt_history_is_rand_history.
 
-(* (c) In any history of encryptions under one key - any plaintexts, any
-   associated data, all six schemes - the nonce fields of two ciphertexts are
-   equal IF AND ONLY IF their tape windows are equal; ciphertexts of calls that
-   drew different windows are different. *)
-Theorem C20_nonces_repeat_iff_windows_repeat :
+(* (c) THE CIPHERTEXTS OF A HISTORY CARRY THEIR WINDOWS: in any history of
+   encryptions under one key - any plaintexts, any associated data, all six
+   schemes - the i-th drawn window is tape[i n, (i+1) n) and the nonce field of
+   the i-th ciphertext IS that window.  (The iff and the last clause below are
+   immediate consequences of these equalities; the statements about
+   REPETITION over a history are (d).) *)
+Theorem C20_history_ciphertexts_carry_their_windows :
   forall (A : aead_prims) k prefix msgs s res s' i j ci cj wi wj,
     encrypt_run A k prefix msgs s = Some (res, s') ->
     nth_error res i = Some (Ok ci, wi) -> nth_error res j = Some (Ok cj, wj) ->
@@ -352,7 +354,34 @@ Theorem C20_nonces_repeat_iff_windows_repeat :
     (nonce_field (scheme_of k) prefix ci = nonce_field (scheme_of k) prefix cj <-> wi = wj) /\
     (ci = cj -> wi = wj).
 Proof. exact encrypt_run_nonces_equal_iff. Qed.
-Print Assumptions C20_nonces_repeat_iff_windows_repeat.
+Print Assumptions C20_history_ciphertexts_carry_their_windows.
+
+(* (d) REPETITION OVER A HISTORY.  The nonce fields of the ciphertexts at two
+   positions of a history are equal IF AND ONLY IF the TAPE repeats: the
+   windows tape[i n, (i+1) n) and tape[j n, (j+1) n) are equal. *)
+Theorem C20_nonce_repeats_iff_tape_window_repeats :
+  forall (A : aead_prims) k prefix msgs s res s' i j ci cj wi wj,
+    encrypt_run A k prefix msgs s = Some (res, s') ->
+    nth_error res i = Some (Ok ci, wi) -> nth_error res j = Some (Ok cj, wj) ->
+    let n := nonce_len (scheme_of k) in
+    (nonce_field (scheme_of k) prefix ci = nonce_field (scheme_of k) prefix cj <->
+     firstn n (skipn (i * n) (r_tape s)) = firstn n (skipn (j * n) (r_tape s))).
+Proof. exact encrypt_run_nonce_repeats_iff_tape_repeats. Qed.
+Print Assumptions C20_nonce_repeats_iff_tape_window_repeats.
+
+(* Hence, on a tape whose first |msgs| windows of the nonce length are pairwise
+   different - NoDup (tape_windows n |msgs| tape), tape_windows n k t = the list
+   of t[i n, (i+1) n) for i < k - NO NONCE REPEATS: the nonce fields, and the
+   ciphertexts, at any two different positions of the history differ. *)
+Theorem C20_no_nonce_repeats_on_a_tape_without_repeated_windows :
+  forall (A : aead_prims) k prefix msgs s res s',
+    encrypt_run A k prefix msgs s = Some (res, s') ->
+    NoDup (tape_windows (nonce_len (scheme_of k)) (length msgs) (r_tape s)) ->
+    forall i j ci cj wi wj, i <> j ->
+      nth_error res i = Some (Ok ci, wi) -> nth_error res j = Some (Ok cj, wj) ->
+      nonce_field (scheme_of k) prefix ci <> nonce_field (scheme_of k) prefix cj /\ ci <> cj.
+Proof. exact encrypt_run_no_nonce_repeats. Qed.
+Print Assumptions C20_no_nonce_repeats_on_a_tape_without_repeated_windows.
 
 (* the iff version of C20_distinct_windows_distinct_nonces_in_a_sequence *)
 Theorem C20_fields_equal_iff_windows_equal_in_a_sequence :
@@ -394,6 +423,23 @@ Example C20_nonvacuous_nonce_link :
   encrypt_run ex_prims (AKXaes 8 (repeat 8 32%nat)) ex_prefix [([1; 2; 3], [9])] (mkR [] (firstn 21 ex_tape))
   = Some ([(Ok ([1; 0; 0; 0; 5] ++ firstn 20 ex_tape ++ [1; 2; 3; 1; 170]), firstn 20 ex_tape)], mkR [] [20]).
 Proof. split; vm_compute; reflexivity. Qed.
+
+(* Non-vacuity of (d): the counting tape has no repeated 12-byte window among
+   its first three (the premise of the no-repeat theorem holds); on a tape
+   that does repeat a window (12 zero bytes twice) the two AES-GCM ciphertexts
+   carry the same nonce - the iff is not one-sided. *)
+Example C20_nonvacuous_no_repeat :
+  NoDup (tape_windows 12 3 ex_tape) /\
+  match encrypt_run ex_prims (AKGcm (repeat 1 16%nat)) ex_prefix [([1; 2; 3], [9]); ([4; 5], [])] (mkR [] (zeros 24)) with
+  | Some ([(Ok c1, _); (Ok c2, _)], _) =>
+      nonce_field AesGcm ex_prefix c1 = nonce_field AesGcm ex_prefix c2 /\ c1 <> c2
+  | _ => False
+  end.
+Proof.
+  split.
+  - repeat (constructor; [vm_compute; intuition discriminate|]). constructor.
+  - vm_compute. split; [reflexivity|discriminate].
+Qed.
 
 (* 9. HYBRID ENCAPSULATIONS.  `pub` (the base-point multiplication of the
    standard library) stays an arbitrary function; what it must satisfy is
